@@ -8,6 +8,7 @@ encoder with all freedoms (Spec/BocEncode.lean).  `none` = the library raises.
 -/
 import TonVerif.Proofs.BocParse
 import TonVerif.Proofs.SrcBocHeader
+import TonVerif.Proofs.SrcBocCell
 import TonVerif.Properties.C01
 
 namespace TonVerif.Properties.C05
@@ -191,6 +192,27 @@ open TonVerif.Generated.BocHeader in
 /-- consequence: the source's header parser and the hand model accept the same byte lists. -/
 theorem c05_src_header_accepts (data : Bytes) : (header data).isSome = (deserializeBocHeader data).isSome := by
   rw [c05_src_header]; cases deserializeBocHeader data <;> rfl
+
+open TonVerif.Generated.BocHeader in
+/-- SOURCE TIE for the first part of the cell record reader: `Generated.BocHeader.cell_layout` is regenerated on every run
+from the statements of `Boc.deserialize_cell` that precede `bits = bitarray()` (descriptor bytes `d1`, `d2`, absent-cell
+marker, `popcount(level mask) + 1` stored hashes and depths, the length check).  For EVERY byte list and index width it raises
+exactly when the hand model's `deserializeCell` fails in that part, and otherwise yields the hand model's number of
+references, exotic flag, completion-tag flag, number of data bytes and data start position; and the hand model's
+`deserializeCell` IS that part followed by `cellRest` (data bits, completion tag, exotic type byte, reference indices - these
+stay tied by differential correspondence only). -/
+theorem c05_src_cell_layout (data : Bytes) (refSize : Nat) :
+    cell_layout data refSize = cellLayout data refSize ∧
+    deserializeCell data refSize = (cell_layout data refSize).bind (cellRest data refSize) := by
+  have h := TonVerif.Proofs.SrcBocCell.src_cell_layout_eq data refSize
+  exact ⟨h, by rw [h]; exact TonVerif.Proofs.SrcBocCell.deserializeCell_eq data refSize⟩
+
+open TonVerif.Generated.BocHeader in
+/-- non-vacuity of `c05_src_cell_layout`: an exotic record with stored hashes of a level-mask-1 cell (two hashes, two depths:
+68 bytes), 36 data bytes with completion tag, one reference of width 2. -/
+example : cell_layout ([0x39, 0x49] ++ List.replicate 68 0 ++ List.replicate 37 1 ++ [0, 5]) 2 =
+    some { total_refs := 1, is_exotic := true, is_augmented := true, data_size := 37, i := 70 } := by
+  decide +kernel
 
 /-- non-vacuity of `c05_src_header`: a well-formed header (generic constructor, index present, one cell, one root, three
 bytes of cell data) on which the regenerated parser and the hand model both return the expected fields. -/
